@@ -236,11 +236,16 @@ fn term0() -> Tree {
     Tree::T { pay: Num::I(0) }
 }
 
-/// flat-payoff game for the frequency runs: chance d -> player one x -> player two y -> chance e
+/// flat-payoff game for the frequency runs: chance d -> player one x -> chance d2 (same weights as d, another infoset)
+/// -> player two y -> player two y2 (one infoset per own earlier action) -> chance e.  In one pass two chance infosets of
+/// equal weights and two infosets of the sampled player are drawn: independence across infosets is observable
 fn freq_game(dw: &[i64], ew: &[i64], na: usize) -> Tree {
+    // (the third distribution sits below the first action of y2 only: the tree stays small)
     let e = || Tree::C { ci: "e".into(), kids: ew.iter().map(|w| CKid { w: Num::I(*w), t: term0() }).collect() };
-    let y = || Tree::P { pl: 2, info: "y".into(), kids: (0..na).map(|j| PKid { a: format!("b{j}"), t: e() }).collect() };
-    let x = || Tree::P { pl: 1, info: "x".into(), kids: (0..na).map(|j| PKid { a: format!("a{j}"), t: y() }).collect() };
+    let y2 = |b: usize| Tree::P { pl: 2, info: format!("y2b{b}"), kids: (0..na).map(|j| PKid { a: format!("c{j}"), t: if j == 0 && b == 0 { e() } else { term0() } }).collect() };
+    let y = || Tree::P { pl: 2, info: "y".into(), kids: (0..na).map(|j| PKid { a: format!("b{j}"), t: y2(j) }).collect() };
+    let d2 = || Tree::C { ci: "d2".into(), kids: dw.iter().map(|w| CKid { w: Num::I(*w), t: y() }).collect() };
+    let x = || Tree::P { pl: 1, info: "x".into(), kids: (0..na).map(|j| PKid { a: format!("a{j}"), t: d2() }).collect() };
     Tree::C { ci: "d".into(), kids: dw.iter().map(|w| CKid { w: Num::I(*w), t: x() }).collect() }
 }
 
@@ -308,9 +313,10 @@ pub fn record(args: &Args) {
         // player one: regrets proportional to p (flat payoffs leave them untouched), so its strategy
         // after the advance of the first half-iteration is p; player two: current strategy p
         let skew: Vec<f64> = p.iter().map(|x| x * 10.0).collect();
+        // (player two owns y and one y2 infoset per action of y: all play p)
         let state: verif::State = [
             vec![InfoState { cum_regret: skew.clone(), cum_strat: vec![0.0; p.len()], strat: vec![1.0 / p.len() as f64; p.len()] }],
-            vec![InfoState { cum_regret: vec![0.0; p.len()], cum_strat: vec![0.0; p.len()], strat: p.to_vec() }],
+            (0..p.len() + 1).map(|_| InfoState { cum_regret: vec![0.0; p.len()], cum_strat: vec![0.0; p.len()], strat: p.to_vec() }).collect(),
         ];
         for meth in ["External", "Sampled"] {
             for rep in 0..reps {
